@@ -118,6 +118,35 @@ def run_differential(case):  # noqa: C901
             def bad(mech, msg):
                 probs.append((mech, msg))
 
+            try:
+                _one_differential(root, base, i, rnd, model, keys, absent, req, in_sql, max_chunk, nobj, bad, counters, seen)
+            except Exception as exc:  # noqa: BLE001 - a bulk operation on a legal request must not raise
+                import traceback  # pylint: disable=import-outside-toplevel
+
+                bad(f'bulk:raised:{type(exc).__name__}', f'_IN_SQL_MAX_LENGTH={in_sql} _MAX_CHUNK_ITERATE_LENGTH={max_chunk} request={len(req)} objects={nobj}: '
+                                                          f'{exc!r} :: {traceback.format_exc()[-500:]}')
+            counters['differential-cases'] += 1
+            for mech, msg in probs[:2]:
+                vios.append(common.violation(mech, msg, {'differential': {'seed': case['seed'], 'n': case['n'], 'index': i}}))
+            if sample is None:
+                sample = {'objects': nobj, 'request_len': len(req), 'distinct': len(set(req)), 'absent': len(absent),
+                          '_IN_SQL_MAX_LENGTH': in_sql, '_MAX_CHUNK_ITERATE_LENGTH': max_chunk}
+            common.rmtree(root)
+            if len(vios) >= 6:
+                break
+        res = common.case_result(sig=f'diff{case["seed"]}', nontrivial=True, counters=counters, violations=vios, sample=sample)
+        res['distinct'] = len(seen)
+        res['evaluations'] = max(1, counters['differential-cases'])
+        return res
+    finally:
+        common.rmtree(base)
+
+
+def _one_differential(root, base, i, rnd, model, keys, absent, req, in_sql, max_chunk, nobj, bad, counters, seen):  # noqa: C901
+    from disk_objectstore import Container  # pylint: disable=import-outside-toplevel
+
+    if True:
+        if True:
             plain = Container(root)
             ref = single_key_reference(plain, req + keys)
             if any(v[0] == 'inconsistent-single' for v in ref.values()):
@@ -143,6 +172,8 @@ def run_differential(case):  # noqa: C901
                 want = {k for k in dreq if k in model}
                 if sorted(got) != sorted(want):
                     bad('bulk:delete_objects', f'{tag}: delete_objects returned {len(got)} keys ({len(set(got))} distinct), expected {len(want)}')
+                if any(low.has_objects(list(want))) if want else False:
+                    bad('bulk:delete_objects', f'{tag}: keys reported as deleted still exist')
                 for k in want:
                     model.pop(k)
             if what == 'import':
@@ -184,22 +215,7 @@ def run_differential(case):  # noqa: C901
                 bad('bulk:double-row', f'{tag}: a key is indexed twice')
             fresh.close()
             plain.close()
-            counters['differential-cases'] += 1
             seen.add((nobj, len(req), in_sql, max_chunk, what))
-            for mech, msg in probs[:2]:
-                vios.append(common.violation(mech, msg, {'differential': {'seed': case['seed'], 'n': case['n'], 'index': i}}))
-            if sample is None:
-                sample = {'objects': nobj, 'request_len': len(req), 'distinct': len(set(req)), 'absent': len(absent),
-                          '_IN_SQL_MAX_LENGTH': in_sql, '_MAX_CHUNK_ITERATE_LENGTH': max_chunk, 'then': what}
-            common.rmtree(root)
-            if len(vios) >= 6:
-                break
-        res = common.case_result(sig=f'diff{case["seed"]}', nontrivial=True, counters=counters, violations=vios, sample=sample)
-        res['distinct'] = len(seen)
-        res['evaluations'] = max(1, counters['differential-cases'])
-        return res
-    finally:
-        common.rmtree(base)
 
 
 def run_real_thresholds(case):  # noqa: C901
@@ -226,7 +242,7 @@ def run_real_thresholds(case):  # noqa: C901
         # grow the index through the paging boundaries, listing and no_holes at each
         for target_rows in sizes_rows + [total - nloose]:
             chunk = datas[done:target_rows]
-            for k, d in zip(cont.add_objects_to_pack(chunk), chunk):
+            for k, d in zip(cont.add_objects_to_pack(chunk, compress=(len(model) // 1000) % 2 == 0), chunk):  # size != length for half of them
                 model[k] = d
             done = target_rows
             listed = list(cont.list_all_objects())
@@ -257,6 +273,9 @@ def run_real_thresholds(case):  # noqa: C901
             if got != want:
                 bad('bulk:has_objects:real-thresholds', f'request of {len(req)} keys ({len(set(req))} distinct): {sum(1 for a, b in zip(got, want) if a != b)} wrong answers')
             metas = list(cont.get_objects_meta(req, skip_if_missing=False))
+            wrong_size = [k for k, m in metas if k in model and m.size != len(model[k])]
+            if wrong_size:
+                bad('bulk:get_objects_meta:real-thresholds', f'request of {len(req)} keys: {len(wrong_size)} objects reported with a wrong size')
             if sorted(k for k, _ in metas) != sorted(set(req)):
                 bad('bulk:get_objects_meta:real-thresholds', f'request of {len(req)} keys: {len(metas)} results for {len(set(req))} distinct keys')
             content = cont.get_objects_content(req)
@@ -273,6 +292,12 @@ def run_real_thresholds(case):  # noqa: C901
         got = cont.delete_objects(dreq)
         if sorted(got) != sorted(set(dreq) & set(model)):
             bad('bulk:delete_objects:real-thresholds', f'delete_objects of {len(dreq)} keys returned {len(got)}')
+        still = [k for k, present in zip(dreq, cont.has_objects(dreq)) if present]
+        if still:
+            bad('bulk:delete_objects:real-thresholds', f'after delete_objects of {len(dreq)} keys (3 SQL batches) {len(still)} of them still exist')
+        left = set(cont.list_all_objects())
+        if left != set(model) - set(dreq):
+            bad('bulk:delete_objects:real-thresholds', f'after the delete the listing has {len(left)} keys, expected {len(set(model) - set(dreq))}')
         counters['real-threshold-deletes'] += 1
         cont.close()
         res = common.case_result(sig=f'real{case["seed"]}', nontrivial=True, counters=counters, violations=vios[:6],
